@@ -485,6 +485,41 @@ def insert_conditions(eng, res, rule="R-INSERT-COND"):
     return n_sites
 
 
+# ---------------------------------------------------------------------------------------------- R-PRINT-EXACT
+def print_exact(eng, res, rule="R-PRINT-EXACT"):
+    """Numbers written into notation text are written with Python's shortest round-tripping repr: an f-string hole
+    without format specification (or str()).  A format specification, round() or a %-format shortens the number, and
+    the text no longer denotes the value the object holds (re-parsing gives another mixture / weight / parameter)."""
+    notation = {c.name for c in eng.prog.subclasses("BigSMILESbase", strict=False)}
+    n = 0
+    for q, fi in sorted(eng.prog.functions.items()):
+        sites = []
+        if fi.name == "generate_string":
+            sites = [js for js in own_nodes(fi.node) if isinstance(js, ast.JoinedStr)]
+            extra = [c for c in own_nodes(fi.node) if isinstance(c, ast.Call) and callee_name(c) in ("round", "format")]
+        else:
+            extra = []
+            for c in own_nodes(fi.node):
+                if isinstance(c, ast.Call) and any(getattr(t, "name", None) in notation for t in eng.resolve_call(fi, c) if not isinstance(t, tuple)):
+                    for a in list(c.args) + [k.value for k in c.keywords]:
+                        t = eng.flow(fi).expand(a, eng.flow(fi).cfg.node_of(c), depth=4) if not isinstance(a, ast.JoinedStr) else a
+                        sites += [js for js in ast.walk(t) if isinstance(js, ast.JoinedStr)]
+                        extra += [x for x in ast.walk(t) if isinstance(x, ast.Call) and callee_name(x) in ("round", "format")]
+        if not sites and not extra:
+            continue
+        bad = []
+        for js in sites:
+            for v in js.values:
+                if isinstance(v, ast.FormattedValue) and (v.format_spec is not None or v.conversion not in (-1, 115)):
+                    bad.append(f"{{{src(v.value)}:{src(v.format_spec)[2:-1] if v.format_spec is not None else '!' + chr(v.conversion)}}}")
+        bad += [src(x)[:40] for x in extra]
+        n += 1
+        res.unit(fi)
+        res.ob(rule, fi, "full-precision", "values written into notation text are written in full (no format specification, no rounding)", fi.node, not bad, f"shortened: {bad}")
+    res.floor(rule, n, 10)
+    return n
+
+
 def check(eng, res):
     res.doc("R-EXT-THREAD", "children are printed with exactly the caller's extension flag; __str__ = generate_string(True)")
     res.doc("R-EXT-ERASE", "A-TEMPLATE: T(False) == erase(T(True)) for all 13 printers; no '|' without extensions; trims match separators")
@@ -512,6 +547,8 @@ def check(eng, res):
     insert_accept(eng, res)
     res.doc("R-INSERT-COND", "descriptors are inserted exactly when the token lacks the one for that neighbour (finite table over element count x descriptor count)")
     insert_conditions(eng, res)
+    res.doc("R-PRINT-EXACT", "numbers are written into notation text with full precision (printers and text handed to notation constructors)")
+    print_exact(eng, res)
     res.assumptions += [
         "holes inside |…| print as numbers that float() reads back; raw atom text contains no '|'",
         "printer bodies are in the fragment A-TEMPLATE evaluates (anything else is exit 2)",
